@@ -245,3 +245,12 @@ def history_replay_c18(model, wd):
     return r.returncode == 1, r.stdout.strip()[-1500:]
 
 _rr_static('C18', 'C19', 'C19.no_stateful_local_statics', 'C18.lemma.no_state_between_calls', replay=history_replay_c18)
+
+# the uncertainty estimates are also handed out through the C interface (and through it to the Mathematica interface): every C wrapper of an uncertainty function returns
+# exactly its C++ counterpart on the same model with the extra arguments in order -- C17's forwarder contracts for these wrappers are callee contracts of C18
+from gm2v.ob import REGISTRY as _REG18
+from contracts.shared import reregister as _rr18
+from contracts import c17 as _c17_18
+for _o in list(_REG18.get('C17', [])):
+    if _o.oid.startswith('C17.forwards.') and 'uncertainty' in _o.oid:
+        _rr18('C18', 'C17', _o.oid, _o.oid.replace('C17.forwards.', 'C18.c_interface.forwards.', 1))
